@@ -71,6 +71,64 @@ pub mod csv {
 
     use super::RatesCache;
 
+    // Verification-only crash injection (cargo feature `verif_hooks`, off by
+    // default). ACB_VERIF_CRASH=<step name> aborts the process at that step
+    // of the cache write; ACB_VERIF_CRASH=bytes:<n> lets exactly <n> bytes of
+    // the file content reach the file and aborts. No effect when unset.
+    #[cfg(feature = "verif_hooks")]
+    mod verif_crash {
+        use std::io::Write;
+
+        fn spec() -> Option<String> {
+            std::env::var("ACB_VERIF_CRASH").ok()
+        }
+
+        pub fn step(name: &str) {
+            if spec().as_deref() == Some(name) {
+                std::process::abort();
+            }
+        }
+
+        pub struct CrashWriter<W: Write> {
+            inner: W,
+            written: usize,
+            limit: Option<usize>,
+        }
+
+        impl<W: Write> CrashWriter<W> {
+            pub fn new(inner: W) -> CrashWriter<W> {
+                let limit = spec().and_then(|s| {
+                    s.strip_prefix("bytes:").and_then(|n| n.parse::<usize>().ok())
+                });
+                CrashWriter {
+                    inner,
+                    written: 0,
+                    limit,
+                }
+            }
+        }
+
+        impl<W: Write> Write for CrashWriter<W> {
+            fn write(&mut self, buf: &[u8]) -> std::io::Result<usize> {
+                if let Some(limit) = self.limit {
+                    if self.written + buf.len() >= limit {
+                        let k = limit - self.written;
+                        let _ = self.inner.write_all(&buf[..k]);
+                        let _ = self.inner.flush();
+                        std::process::abort();
+                    }
+                }
+                let n = self.inner.write(buf)?;
+                self.written += n;
+                Ok(n)
+            }
+
+            fn flush(&mut self) -> std::io::Result<()> {
+                self.inner.flush()
+            }
+        }
+    }
+
     pub struct CsvRatesCache {
         // Typically, this will be wherever get_home_dir() provides,
         // but can be specified for integration testing.
@@ -208,6 +266,10 @@ pub mod csv {
                 }
             );
             let file = open_rates_csv_file_write(&self.dir_path, year)?;
+            #[cfg(feature = "verif_hooks")]
+            verif_crash::step("after_create");
+            #[cfg(feature = "verif_hooks")]
+            let file = verif_crash::CrashWriter::new(file);
 
             // CSV file of date,exchange_rate
 
@@ -221,6 +283,8 @@ pub mod csv {
                     .map_err(|e| e.to_string())?;
             }
             let r = csv_w.flush().map_err(|e| e.to_string());
+            #[cfg(feature = "verif_hooks")]
+            verif_crash::step("after_flush");
             if r.is_ok() {
                 trace!("CsvRatesCache::write_rates flushed ok");
             } else {
